@@ -361,7 +361,7 @@ func (f *Frame) havocCall(st *execState, name string, args []Val, rtype types.Ty
 		before := st.mem
 		st.mem = e.mc.HavocAll("mem.after." + sanitize(name))
 		f.keepLocals(st, before, nil)
-		st.gh = e.freshGhost(".after." + sanitize(name))
+		st.gh = e.freshGhostFrom(st.gh, ".after." + sanitize(name))
 	}
 	return f.freshResult(st, name, rtype, hint)
 }
@@ -535,7 +535,7 @@ func (f *Frame) modularCall(st *execState, fn *ssa.Function, name string, con *C
 				before := st.mem
 				st.mem = e.mc.HavocAll("mem.after." + sanitize(shortCallee(name)))
 				f.keepLocals(st, before, nil)
-				st.gh = e.freshGhost(".after." + sanitize(shortCallee(name)))
+				st.gh = e.freshGhostFrom(st.gh, ".after." + sanitize(shortCallee(name)))
 				continue
 			}
 			e.trusted["frame of closure "+fnName(cfn)+" (called by "+name+") is taken from its contract"] = true
@@ -561,7 +561,7 @@ func (f *Frame) modularCall(st *execState, fn *ssa.Function, name string, con *C
 		before := st.mem
 		st.mem = e.mc.HavocAll("mem.after." + sanitize(shortCallee(name)))
 		f.keepLocals(st, before, nil)
-		st.gh = e.freshGhost(".after." + sanitize(shortCallee(name)))
+		st.gh = e.freshGhostFrom(st.gh, ".after." + sanitize(shortCallee(name)))
 	}
 	st.st.cut = true
 	// 3. results + postconditions. A clause of the form "r0 == E" on a
